@@ -25,6 +25,14 @@ where
     <Self as Encoding>::Repr: Default,
 {
     fn decode(rlp: &Rlp<'_>) -> Result<Self, DecoderError> {
+        // `BasicDecoder::decode_value` alone accepts a long-form length prefix in front of a short
+        // payload and ignores whatever follows the item: check the header with `payload_info` and
+        // insist that the item spans the whole input, so only the canonical encoding is accepted.
+        let info = rlp.payload_info()?;
+        if info.total() != rlp.as_raw().len() {
+            return Err(DecoderError::RlpIsTooBig);
+        }
+
         rlp.decoder().decode_value(|bytes| {
             if bytes.first().cloned() == Some(0) {
                 Err(DecoderError::RlpInvalidIndirection)
